@@ -26,17 +26,18 @@ RULE = ('A case is one seeded write sequence (1..600 unique payloads over 1..200
         'consecutive attempts. Indices are capped at 48 per kind for long sequences (sampled evenly). '
         'evaluations = (sequence, fault plan) executions. A sub-case is non-trivial when at least one injected '
         'fault fired or a prune closed a handle that was later re-opened in append mode; distinct = distinct '
-        '(open/close/fault event trace) digests among those.')
+        '(open/close/fault event trace) digests among those. 30% of the cases additionally split a seeded tagged BAM (1..14 cells, some reads without the tag) '
+        'with bamSplitByTag for max_handles in {1, cells-1, cells, cells+1, random, 400}: every cell file must exist and hold exactly its reads in input order.')
 ASSUMPTIONS = [
     'open() failures are injected at the module seam handlelimiter.gzip.open / handlelimiter.open; write()/close() I/O errors are outside the statement and not injected',
     'storage is an in-memory byte buffer per path; gzip compression and member concatenation are the real library',
     'a write() may raise only if one of its own open attempts failed while no other shim handle was open',
 ]
 COMPONENTS = {
-    'real': ['singlecellmultiomics.pyutils.handlelimiter.HandleLimiter', 'singlecellmultiomics.fastqProcessing.fastqHandle.FastqHandle(single_cell=True)', 'gzip.GzipFile'],
-    'stub': ['SimFS (handlelimiter.gzip / handlelimiter.open): in-memory files, fd budget, transient/permanent open faults', 'SimClock (handlelimiter.time)'],
+    'real': ['bamSplitByTag __main__ driver loop + split_bam_by_tag (re-executed with runpy in a forked child, real BAM files in scratch)', 'singlecellmultiomics.pyutils.handlelimiter.HandleLimiter', 'singlecellmultiomics.fastqProcessing.fastqHandle.FastqHandle(single_cell=True)', 'gzip.GzipFile'],
+    'stub': ['SimPool for the index step of bamSplitByTag (multiprocessing.Pool rebound in the child)', 'SimFS (handlelimiter.gzip / handlelimiter.open): in-memory files, fd budget, transient/permanent open faults', 'SimClock (handlelimiter.time)'],
 }
-REQUIRED_PROBES = ['emfile_recovery', 'prune_closed_then_reopened', 'transient_fault_fired', 'permanent_fault_fired', 'write_raised_legitimately']
+REQUIRED_PROBES = ['split_limit_below_cell_count', 'emfile_recovery', 'prune_closed_then_reopened', 'transient_fault_fired', 'permanent_fault_fired', 'write_raised_legitimately']
 EXHAUSTIVE_NOTE = 'fault plans are enumerated per sampled write sequence (capped at 48 indices per kind); write sequences are sampled'
 ERRNOS = [errno.EMFILE, errno.ENFILE, errno.EIO]
 
@@ -107,7 +108,15 @@ def generate(seed, tier):
         plans.append({'kind': 'mixed', 'budget': f.randint(1, max(1, len(used_paths))),
                       'transient': [[f.randint(0, max(0, n_open_bound - 1)), f.choice(ERRNOS)]],
                       'permanent': [f.choice(used_paths)] if f.random() < 0.3 else []})
-    return {'params': params, 'workload': writes, 'fault_plans': plans}
+    case = {'params': params, 'workload': writes, 'fault_plans': plans}
+    if w.random() < 0.3:
+        # second code path of the property: bamSplitByTag re-scans the input with a cap on simultaneously open BAM handles
+        ncell = weighted(w, [(1, 1), (w.randint(2, 6), 5), (w.randint(7, 14), 2)])
+        nread = weighted(w, [(w.randint(1, 10), 3), (w.randint(11, 60), 4)])
+        reads = [[w.randrange(ncell), i, w.random() < 0.9] for i in range(nread)]     # [cell, id, has_tag]
+        limits = sorted({1, ncell, ncell + 1, max(1, ncell - 1), w.randint(1, ncell + 1), 400})
+        case['split'] = {'cells': ncell, 'reads': reads, 'max_handles': limits}
+    return case
 
 
 class _Rec:
@@ -315,9 +324,118 @@ def execute(case):
         nontrivial = bool(fs.fired) or pr.get('prune_closed_then_reopened', 0) > 0
         sigs.append((d[:16], nontrivial))
         clock_ticks += fs.attempts
+    n_split = 0
+    if case.get('split'):
+        v, n_split, sg = run_split(case, log, probes)
+        viol.extend(v)
+        sigs.extend(sg)
     return {'violations': viol, 'digest': log.digest(), 'probes': probes, 'faults': faults,
-            'evals': len(case['fault_plans']), 'sigs': sigs, 'steps': log.n + clock_ticks,
+            'evals': len(case['fault_plans']) + n_split, 'sigs': sigs, 'steps': log.n + clock_ticks,
             'sim_time': 0.0, 'nontrivial': any(s[1] for s in sigs)}
+
+
+def _split_child(d, bam, k, seed, wfd):
+    import json, multiprocessing, os, runpy, sys
+    from ..rng import stream
+    from ..pool import Scheduler, SimPoolFactory
+    os.chdir(d)
+    dn = os.open(os.devnull, os.O_WRONLY)
+    os.dup2(dn, 1)
+    os.dup2(dn, 2)
+    sys.stdout = open(os.devnull, 'w')
+    elog = EventLog()
+    fac = SimPoolFactory(Scheduler({'policy': 'seeded'}, stream(seed, 'schedule'), elog))
+    multiprocessing.Pool = fac.Pool                  # `from multiprocessing import Pool` in the re-executed module picks this up
+    out = os.path.join(d, f'split_{k}') + '/'
+    sys.argv = ['bamSplitByTag.py', bam, 'SM', '-o_folder', out, '-max_handles', str(k)]
+    res = {'exception': None}
+    try:
+        runpy.run_module('singlecellmultiomics.bamProcessing.bamSplitByTag', run_name='__main__')
+    except SystemExit as e:
+        res['exception'] = f'SystemExit({e.code})' if e.code else None
+    except BaseException as e:
+        res['exception'] = f'{type(e).__name__}: {e}'[:300]
+    os.write(wfd, json.dumps(res).encode())
+    os._exit(0)
+
+
+def run_split(case, log, probes):
+    import json
+    import os
+    import pysam
+    from ..scratch import scratch
+    sp = case['split']
+    viol, sigs = [], []
+    n = 0
+    with scratch() as d:
+        bam = os.path.join(d, 'in.bam')
+        header = pysam.AlignmentHeader.from_dict({'HD': {'VN': '1.6', 'SO': 'coordinate'}, 'SQ': [{'SN': 'c1', 'LN': 100000}]})
+        with pysam.AlignmentFile(bam, 'wb', header=header) as o:
+            for cell, i, tagged in sp['reads']:
+                r = pysam.AlignedSegment(header)
+                r.query_name = f'q{i}'
+                r.reference_id = 0
+                r.reference_start = 10 + i
+                r.query_sequence = 'ACGT'
+                r.cigartuples = [(0, 4)]
+                r.mapping_quality = 60
+                if tagged:
+                    r.set_tag('SM', f'LIB_{cell}')
+                o.write(r)
+        pysam.index(bam)
+        want = {}
+        for cell, i, tagged in sp['reads']:
+            if tagged:
+                want.setdefault(f'LIB_{cell}', []).append(f'q{i}')
+        for k in sp['max_handles']:
+            n += 1
+            rfd, wfd = os.pipe()
+            pid = os.fork()
+            if pid == 0:
+                os.close(rfd)
+                try:
+                    _split_child(d, bam, k, f"{case.get('run_seed')}/{k}", wfd)
+                finally:
+                    os._exit(98)
+            os.close(wfd)
+            data = b''
+            while True:
+                b = os.read(rfd, 65536)
+                if not b:
+                    break
+                data += b
+            os.close(rfd)
+            os.waitpid(pid, 0)
+            res = json.loads(data.decode()) if data else {'exception': 'child died'}
+            probes['split_run'] = probes.get('split_run', 0) + 1
+            if k < len(want):
+                probes['split_limit_below_cell_count'] = probes.get('split_limit_below_cell_count', 0) + 1
+            got = {}
+            out = os.path.join(d, f'split_{k}')
+            problems = []
+            if os.path.isdir(out):
+                for f in sorted(os.listdir(out)):
+                    if f.endswith('.bam'):
+                        try:
+                            with pysam.AlignmentFile(os.path.join(out, f)) as a:
+                                got[f[:-4]] = [r.query_name for r in a.fetch(until_eof=True)]
+                        except Exception as e:
+                            problems.append(f'{f}: unreadable {type(e).__name__}')
+            log.add('split', k, res.get('exception'), sorted((c, v) for c, v in got.items()))
+            sigs.append((log.digest()[:16], k < len(want)))
+            ctx = {'max_handles': k, 'cells': len(want), 'reads': len(sp['reads'])}
+            if res.get('exception'):
+                viol.append({'property': PROPERTY, 'class': 'split-raised', 'signature': 'bamSplitByTag/' + res['exception'].split(':')[0], 'detail': {**ctx, 'error': res['exception']}})
+                continue
+            if problems:
+                viol.append({'property': PROPERTY, 'class': 'invalid-output', 'signature': 'bamSplitByTag/unreadable', 'detail': {**ctx, 'problems': problems[:3]}})
+            if got != want:
+                missing = sorted(set(want) - set(got))
+                wrong = sorted(c for c in want if c in got and got[c] != want[c])
+                cls = 'lost-record' if missing or any(len(got[c]) < len(want[c]) for c in wrong) else 'order-or-extra'
+                viol.append({'property': PROPERTY, 'class': cls, 'signature': 'bamSplitByTag/' + ('cell-file-missing' if missing else 'cell-content'),
+                             'detail': {**ctx, 'missing_cells': missing[:5], 'wrong_cells': wrong[:5], 'extra_cells': sorted(set(got) - set(want))[:5]}})
+    return viol, n, sigs
 
 
 def sample_view(case, out):
@@ -326,7 +444,7 @@ def sample_view(case, out):
 
 
 def LIST_PATHS(case):
-    return [('fault_plans',), ('workload',), ('fault_plans', 0, 'transient'), ('fault_plans', 0, 'permanent')]
+    return [('fault_plans',), ('workload',), ('split', 'max_handles'), ('split', 'reads'), ('fault_plans', 0, 'transient'), ('fault_plans', 0, 'permanent')]
 
 
 def _shrink(case):
